@@ -51,6 +51,8 @@ namespace {
     std::map<int, int64_t> fns, globs;
     bool conv = false;
     bool used = false;
+    bool lib_extended = false; // the engine was built from a standard library the embedder had extended
+    bool thing = false;        // a type named "Thing" is registered (which C++ type depends on the generation)
     std::shared_ptr<std::atomic<int>> bumps;
   };
 
@@ -81,9 +83,10 @@ namespace {
         op["s"] = J(s);
         if (!occupied[s]) {
           op["k"] = J("create");
+          op["extlib"] = J(plan.chance(400));
           occupied[s] = true;
         } else {
-          const int kind = int(plan.below(18));
+          const int kind = int(plan.below(22));
           switch (kind) {
           case 0:
           case 1:
@@ -132,6 +135,13 @@ namespace {
           case 14:
             op["k"] = J(plan.chance(600) ? "use" : "calluse");
             op["nested"] = J(plan.chance(500));
+            break;
+          case 18:
+            op["k"] = J("calllib"); // a function / global the embedder put into THIS engine's library only
+            break;
+          case 19:
+          case 20:
+            op["k"] = J(plan.chance(400) ? "addthing" : "readthing"); // the type name "Thing": another C++ type per generation
             break;
           default:
             op["k"] = J("loopfn");
@@ -220,10 +230,35 @@ namespace {
                 m = GenModel();
                 m.gen = gen_counter.fetch_add(1) + 1;
                 m.bumps = std::make_shared<std::atomic<int>>(0);
-                if (s < N_ARENA) {
-                  eng[s] = make_engine_at(g_arena[s].bytes, {dir});
+                if (op.at("extlib").truthy()) {
+                  // the embedder extends its copy of the standard library before building the engine from it
+                  ModulePtr lib = make_stdlib_module();
+                  const int tagv = m.gen * 100 + 77;
+                  try {
+                    lib->add(fun([tagv]() { return tagv; }), "libfn");
+                    lib->add_global_const(const_var(tagv + 1), "libglobal");
+                    eng[s] = make_engine_from_module_at(s < N_ARENA ? static_cast<void *>(g_arena[s].bytes) : nullptr, lib, {dir});
+                  } catch (...) {
+                    // a fresh copy of the standard library cannot already contain what another engine's embedder added
+                    bad(oi, "foreign-or-wrong-value", "building an engine from a freshly obtained, extended standard library failed: " + describe_current_exception(nullptr));
+                    eng[s] = nullptr; // the slot stays empty: later operations on it are skipped
+                  }
+                  m.lib_extended = true;
+                  cnt[size_t(a)]["probe_engine_built_from_extended_library"] += 1;
                 } else {
-                  eng[s] = make_engine({dir}).release();
+                  try {
+                    eng[s] = s < N_ARENA ? make_engine_at(g_arena[s].bytes, {dir}) : make_engine({dir}).release();
+                  } catch (...) {
+                    bad(oi, "foreign-or-wrong-value", "constructing a plain engine failed: " + describe_current_exception(nullptr));
+                    eng[s] = nullptr;
+                  }
+                }
+                if (!eng[s]) {
+                  out = "creation-failed";
+                  sim_log(2, uint64_t(oi), fnv1a(out));
+                  done[oi].store(1);
+                  sim_unblock_all(&done[oi]);
+                  continue;
                 }
                 auto bumps = m.bumps;
                 eng[s]->add(fun([bumps]() { bumps->fetch_add(1); }), "bump");
@@ -251,6 +286,7 @@ namespace {
                 eng[s]->add(fun([](int v) { return CA{v}; }), "make_a");
                 eng[s]->add(fun([](const CB &b) { return b.v; }), "takes_b");
                 eng[s]->add(fun([](int v) { return CC{v}; }), "make_c");
+                eng[s]->add(fun([](const Type_Info &ti) { return ti.bare_equal(user_type<CA>()) ? 1 : (ti.bare_equal(user_type<CC>()) ? 2 : 3); }), "thing_kind");
                 eng[s]->add(fun([](const CD &d) { return d.v; }), "takes_d");
                 cnt[size_t(a)]["engines_created"] += 1;
                 if (had_engine[s] && s < N_ARENA) {
@@ -381,6 +417,30 @@ namespace {
               } else if (k == "calluse") {
                 out = eval_show(e, "from_lib(1)");
                 expect(m.used ? "=i:5001" : "!eval_error|Can not find object: from_lib");
+              } else if (k == "calllib") {
+                out = eval_show(e, "libfn() + libglobal");
+                const int64_t tagv = int64_t(m.gen) * 100 + 77;
+                if (m.lib_extended) {
+                  expect("=i:" + std::to_string(tagv + tagv + 1));
+                } else if (out.rfind("!eval_error|Can not find object", 0) != 0) {
+                  bad(oi, "foreign-or-wrong-value", "a function / global from another engine's extended library is visible: " + out);
+                }
+              } else if (k == "addthing") {
+                try {
+                  if (m.gen % 2 == 0) {
+                    e.add(user_type<CA>(), "Thing");
+                  } else {
+                    e.add(user_type<CC>(), "Thing");
+                  }
+                  out = "added";
+                } catch (const exception::name_conflict_error &) {
+                  out = "conflict";
+                }
+                expect(m.thing ? "conflict" : "added");
+                m.thing = true;
+              } else if (k == "readthing") {
+                out = eval_show(e, "type(\"Thing\", false).is_type_undef() ? 0 : thing_kind(type(\"Thing\"))");
+                expect(!m.thing ? std::string("=i:0") : (m.gen % 2 == 0 ? "=i:1" : "=i:2"));
               } else if (k == "loopfn") {
                 // a fresh function scope with locals: must not see top-level locals of other generations
                 out = eval_show(e, "fun(n) { var acc = 0; for (var i = 0; i < n; ++i) { acc += i }; return acc }(" + std::to_string(op.at("n").num()) + ")");
